@@ -55,7 +55,7 @@ def tiered(prop, tier, known, plan, kernels=("poly", "tet", "hex"), modes=MODES,
            seeds=None, asan_plan=None, asan_cfgs=(("d1f1", ALLBU), ("d0f0", ALLBU))):
     """plan[tier][class] = (alpha, depth, alpha2, depth2) or None"""
     js = []
-    dl = 300 if tier == "quick" else 900
+    dl = 300 if tier == "quick" else 600
     for kernel in kernels:
         for seed in SEEDS[kernel]:
             if seeds is not None and seed not in seeds:
@@ -126,7 +126,7 @@ def jobs_c17(tier, known):
 
 def jobs_c11(tier, known):
     js = []
-    dl = 300 if tier == "quick" else 900
+    dl = 300 if tier == "quick" else 600
     caps = "8,16,12,4,3,4,8" if tier == "quick" else "8,16,12,4,4,5,8"
     for kernel in ("poly", "tet", "hex"):
         for seed in SEEDS[kernel]:
@@ -152,11 +152,12 @@ def jobs_c11(tier, known):
 
 A_GCOP = 1 << 15
 A_PERM = 1 << 17
+A_DELC = 1 << 18
 
 
 def jobs_c04(tier, known):
     js = []
-    dl = 300 if tier == "quick" else 900
+    dl = 300 if tier == "quick" else 600
     marks = 2 if tier == "quick" else 3
     for kernel in ("poly", "tet", "hex"):
         for seed in SEEDS[kernel]:
@@ -210,11 +211,12 @@ def jobs_c16(tier, known):
     asan = {"quick": {"small": (full, 1, 0, 0), "medium": (full, 1, 0, 0), "large": (r2, 1, 0, 0)},
             "thorough": {"small": (full, 2, 0, 0), "medium": (full, 1, r2, 2), "large": (r2, 2, 0, 0)}}
     js = tiered("C16", tier, known, plan, kernels=("hex",), asan_plan=asan)
-    # all permutations of a valid halfface list / all tuples through the topology-checked add_cell (C11 probe alphabet on the hex kernel)
-    dl = 300 if tier == "quick" else 900
-    for seed in ("S14", "S15"):
+    # all 6-tuples over the halffaces of a freed hex surface (all 720 permutations of a valid list among them, every list with
+    # repeated halffaces) through the topology-checked add_cell: level 1 = delete_cell of every cell, level 2 = the tuples
+    dl = 300 if tier == "quick" else 600
+    for seed in ("S14", "S15", "S16"):
         for mode in ("d1f1", "d0f0"):
-            js.append(mesh_job("C16", "hex", seed, cfgstr(mode), A_DEL, 1 if tier == "quick" else 2, A_ADDCV | A_PERM, 1, caps="8,16,12,5,0,6,%d" % (6 if tier == "quick" else 7), bcfg="fast", deadline=dl, known=known))
+            js.append(mesh_job("C16", "hex", seed, cfgstr(mode), A_DELC, 1, A_PERM, 2, caps="8,16,12,5,0,6,%d" % (6 if tier == "quick" or seed == "S16" else 7), bcfg="fast", deadline=dl, known=known))
     return js
 
 
@@ -240,7 +242,7 @@ IO_ENV = {"ASAN_OPTIONS": "detect_leaks=0:allocator_may_return_null=1:max_alloca
 def io_jobs(prop, nparts_q, nparts_t):
     def f(tier, known):
         n = nparts_q if tier == "quick" else nparts_t
-        dl = 420 if tier == "quick" else 900
+        dl = 420 if tier == "quick" else 600
         js = []
         for i in range(n):
             base = ["--prop", prop]
@@ -255,7 +257,7 @@ def io_jobs(prop, nparts_q, nparts_t):
 
 def jobs_c14(tier, known):
     js = []
-    dl = 420 if tier == "quick" else 900
+    dl = 420 if tier == "quick" else 600
     confs = [(3, 3, 16), (4, 2, 64)] if tier == "quick" else [(5, 2, 128), (4, 3, 64)]
     for depth, names, nparts in confs:
         for i in range(nparts):
@@ -301,7 +303,7 @@ C20_S1 = {"poly": [936, 1388, 884, 1872, 1652, 768, 504, 892, 1304, 1384, 10252,
 def jobs_c20(tier, known):
     js = []
     NM = 16
-    dl = 420 if tier == "quick" else 900
+    dl = 420 if tier == "quick" else 600
 
     def sj(kernel, threads, bound, qs, dl_):
         base = ["--kernel", kernel, "--threads", str(threads), "--queries", ",".join(map(str, qs))]
